@@ -182,26 +182,31 @@ func generateInWatchMode(configArgs map[string]string) []string {
 
 	verifhook.Point("regen.start")
 	defer verifhook.Event("regen.end")
+	packageLoaded = false
 	packageInfo, warnings, err := generateImpl(configArgs)
 	screen.Clear()
 	screen.MoveTopLeft()
 
 	if err != nil {
 		log.Error().Msg(err.Error())
+		if packageInfo == nil || !packageLoaded {
+			return nil
+		}
+		// the package and the packages it references were found, one of them does not validate:
+		// the save that repairs it can be in any of them
 	} else {
 		fmt.Printf("Validated model package '%s' at %v.\n\n", packageInfo.Namespace, time.Now().Format("15:04:05"))
 		for _, warning := range warnings {
 			log.Warn().Msg(warning)
 		}
 		WriteSuccessfulSummary(packageInfo)
-
-		var dirsToWatch []string
-		for _, ref := range packageInfo.GetAllReferencedPackages() {
-			dirsToWatch = append(dirsToWatch, ref.PackageDir())
-		}
-		return dirsToWatch
 	}
-	return nil
+
+	var dirsToWatch []string
+	for _, ref := range packageInfo.GetAllReferencedPackages() {
+		dirsToWatch = append(dirsToWatch, ref.PackageDir())
+	}
+	return dirsToWatch
 }
 
 func WriteSuccessfulSummary(packageInfo *packaging.PackageInfo) {
@@ -219,6 +224,10 @@ func WriteSuccessfulSummary(packageInfo *packaging.PackageInfo) {
 	}
 }
 
+// set by generateImpl once the package and everything it references has been located and loaded
+// (regenerations in watch mode run one at a time)
+var packageLoaded bool
+
 func generateImpl(configArgs map[string]string) (*packaging.PackageInfo, []string, error) {
 	inputDir, err := os.Getwd()
 	if err != nil {
@@ -229,6 +238,7 @@ func generateImpl(configArgs map[string]string) (*packaging.PackageInfo, []strin
 	if err != nil {
 		return packageInfo, nil, err
 	}
+	packageLoaded = true
 
 	if err := updatePackageInfoFromArgs(packageInfo, configArgs); err != nil {
 		return packageInfo, nil, err
